@@ -92,4 +92,12 @@ def strategy(tier):
     return gen.scenario(CFG, flags={}, max_choices=60)
 
 
-PARTS = [Part("ledger", run, strategy, {"quick": 2400, "thorough": 60000}, rule=RULE)]
+def strat_directed(tier):
+    # split upstream of a fork whose branches differ in length and join again: one route runs ahead of the other
+    return gen.directed_scenario(gen.fork_join_ir(split=True), max_choices=60)
+
+
+PARTS = [
+    Part("ledger", run, strategy, {"quick": 2000, "thorough": 60000}, rule=RULE),
+    Part("split-fork-join", run, strat_directed, {"quick": 1000, "thorough": 30000}, rule="directed: two routes through the same fork-join, branches of different length, arbitrary schedules"),
+]
